@@ -195,6 +195,41 @@ def late_script(rng, i):
     return {"name": f"c04-late{i}", "suite": 1, "members": members, "ops": ops}, checks, builds, g1 + g2
 
 
+def future_script(rng, i):
+    """The FIRST message a member sees from a sender in an epoch is refused before anything is
+    decrypted: its generation is more than the window ahead (the sender produced > 1024 messages
+    the receiver never got).  The receiver must be exactly as before: the sender's earlier
+    messages (generation 0, 1, ...) are still readable.  Current epoch and a stored past epoch."""
+    names = ["A", "B", "C", "D"]
+    members = [{"name": n, "retention": 3} for n in names]
+    ops = [{"op": "create", "who": "A"}] + [{"op": "kp", "who": n, "id": "k" + n} for n in names[1:]]
+    ops += [{"op": "commit", "who": "A", "id": "c0", "add": ["k" + n for n in names[1:]]}, {"op": "apply", "who": "A"}]
+    ops += [{"op": "join", "who": n, "welcome_any": "c0"} for n in names[1:]]
+    snd, rcv = rng.shuffle(names)[:2]
+    checks, gens = [], []
+    ops.append({"op": "app", "who": snd, "id": "g0", "data": "00"})
+    ops.append({"op": "app", "who": snd, "id": "g1", "data": "01"})
+    ops.append({"op": "app", "who": snd, "id": "far", "data": "ff", "burn": 1024 + rng.below(40)})
+    past = rng.chance(1, 2)
+    if past:
+        c = rng.choice([n for n in names if n != snd])
+        ops += [{"op": "opts", "who": c, "path_required": True}, {"op": "commit", "who": c, "id": "c1"}, {"op": "apply", "who": c}]
+        ops += [{"op": "deliver", "to": n, "msg": "c1"} for n in names if n != c]
+    # the encoded snapshot may differ after the refusal: looking for the sender's ratchet expands the
+    # lazily derived secret tree (a parent secret is replaced by its two children, from which exactly the
+    # same keys derive); everything else is compared field by field, and the sender's earlier messages
+    # must still be readable
+    ops.append({"op": "observe", "who": rcv, "observe": rcv})
+    ops.append({"op": "deliver", "to": rcv, "msg": "far", "observe": rcv})
+    checks.append((len(ops) - 1, rcv, "first message of a sender, generation beyond the window" + (" (past epoch)" if past else ""), len(ops) - 2, "fields"))
+    for g in rng.shuffle(["g0", "g1"]):
+        ops.append({"op": "deliver", "to": rcv, "msg": g})
+        gens.append(len(ops) - 1)
+    ops.append({"op": "deliver", "to": rcv, "msg": "far", "snap_before": True, "observe": rcv})
+    checks.append((len(ops) - 1, rcv, "the same message again, after earlier generations were read", None, None))
+    return {"name": f"c04-future{i}", "suite": 1, "members": members, "ops": ops}, checks, [], gens
+
+
 def main(run, args):
     rng = Rng(run.seed)
     run.assumptions += [
@@ -243,7 +278,7 @@ def main(run, args):
         return
     quick = run.tier == "quick"
     sw = [sweep_script(rng, i, quick) for i in range(3 if quick else 20)]
-    late = [late_script(rng, i) for i in range(3 if quick else 16)]
+    late = [late_script(rng, i) for i in range(3 if quick else 16)] + [future_script(rng, i) for i in range(4 if quick else 24)]
     recs = run_scripts([x[0] for x in sw] + [x[0] for x in late], timeout=3000)
     failing = []
     stats = {"variants": 0, "rejected_state_compared": 0, "genuine_after_rejection_ok": 0, "f2d_variants": 0, "late_failures": 0, "failed_builds": 0}
@@ -301,6 +336,12 @@ def main(run, args):
                 failing.append(dict(ctx, what="PANIC"))
             elif r.get("ok") is not False:
                 failing.append(dict(ctx, what="an invalid message was accepted", result=r.get("info")))
+            elif fu == "fields":
+                o = (r.get("obs") or {}).get(who) or {}
+                b = (byi.get(gen_i, {}).get("obs") or {}).get(who) or {}
+                keys = ("epoch", "ctx", "auth", "tree_bytes", "roster", "pending", "priv", "nprops", "reinit", "stored_epochs", "stored_state")
+                if not b.get("group") or any(o.get(x) != b.get(x) for x in keys):
+                    failing.append(dict(ctx, what="the member's state CHANGED although the message was rejected", error=r.get("err"), fields=[x for x in keys if o.get(x) != b.get(x)]))
             else:
                 o = (r.get("obs") or {}).get(who) or {}
                 if o.get("snap") != r.get("snap_before"):
